@@ -442,6 +442,8 @@ pub struct Renderer {
     pub out: String,
     pub toks: Vec<Tok>,
     path: Vec<PathElem>,
+    /// the lines that start with a block collection entry: (document, indentation, is a `- ` line)
+    pub skel: Vec<(usize, usize, bool)>,
 }
 
 #[derive(Clone, Copy, PartialEq)]
@@ -452,6 +454,13 @@ pub enum Ctx {
 }
 
 impl Renderer {
+    fn doc_idx(&self) -> usize {
+        match self.path.first() {
+            Some(PathElem::Idx(i)) => *i,
+            _ => 0,
+        }
+    }
+
     fn mark(&mut self, start_byte: usize, is_key: bool) {
         let start = self.out[..start_byte].chars().count();
         let end = self.out.chars().count();
@@ -604,6 +613,7 @@ impl Renderer {
             self.out.push_str(&fill_text(n, &m.fill));
             if i > 0 || indent_first {
                 self.out.push_str(&spaces(n));
+                self.skel.push((self.doc_idx(), n, true));
             }
             self.out.push('-');
             self.path.push(PathElem::Idx(i));
@@ -617,6 +627,7 @@ impl Renderer {
             self.out.push_str(&fill_text(n, &m.fill));
             if i > 0 || indent_first {
                 self.out.push_str(&spaces(n));
+                self.skel.push((self.doc_idx(), n, false));
             }
             self.path.push(PathElem::Key(k.clone()));
             let kt = key_text(k, *ks);
@@ -663,11 +674,57 @@ impl Renderer {
 
 /// LF text of a stream and the token table (char offsets into the LF text).
 pub fn render_lf(s: &PStream) -> (String, Vec<Tok>) {
-    let mut r = Renderer { out: String::new(), toks: Vec::new(), path: Vec::new() };
+    let r = rendered(s);
+    (r.out, r.toks)
+}
+
+fn rendered(s: &PStream) -> Renderer {
+    let mut r = Renderer { out: String::new(), toks: Vec::new(), path: Vec::new(), skel: Vec::new() };
     for (i, d) in s.docs.iter().enumerate() {
         r.doc(i, d);
     }
-    (r.out, r.toks)
+    r
+}
+
+/// V2's class: the entry lines of a document (indentation, sequence or mapping entry) in order; a
+/// frame is opened by the first entry line at an indentation deeper than the innermost open one and
+/// closed by a shallower line.  The entries of a compact collection after the first start lines at a
+/// column where no frame was opened by the `- ` line; the class is: such a line follows a deeper
+/// entry line while no frame is open at its column (`- A:\n    x: 0\n  B: 1`, `- -\n    - a\n  - b`,
+/// `- a:\n  - b\n  c:\n    d: 1\n  e: 2` — an indentless sequence's frame at the column is closed by
+/// the next key, which opens none).
+pub fn returns_between_levels(s: &PStream) -> bool {
+    let r = rendered(s);
+    let mut doc = usize::MAX;
+    let mut fr: Vec<(usize, bool)> = Vec::new();
+    for &(d, n, is_seq) in &r.skel {
+        if d != doc {
+            doc = d;
+            fr.clear();
+        }
+        let mut popped = false;
+        while fr.last().map_or(false, |f| f.0 > n) {
+            fr.pop();
+            popped = true;
+        }
+        match fr.last().copied() {
+            None => fr.push((n, is_seq)),
+            Some((t, tseq)) if t == n => {
+                if !tseq && is_seq {
+                    fr.push((n, true));
+                } else if tseq && !is_seq {
+                    fr.pop();
+                }
+            }
+            Some(_) => {
+                if popped {
+                    return true;
+                }
+                fr.push((n, is_seq));
+            }
+        }
+    }
+    false
 }
 
 pub fn break_text(b: Break) -> &'static str {
@@ -1670,6 +1727,123 @@ pub fn deep_stream(r: &mut Rng) -> PStream {
     PStream { docs: vec![PDoc { fill: vec![], marker: r.chance(1, 4), end_marker: false, root: node, root_meta: Meta::default() }], br }
 }
 
+impl<'a> Gen<'a> {
+    fn fresh_key(&mut self, used: &mut Vec<String>) -> (String, KStyle) {
+        let mut k = gen_string(self.r);
+        let mut tries = 0;
+        while used.contains(&k) || k.chars().count() > 200 || k == "<<" {
+            tries += 1;
+            k = format!("{}{}", gen_string(self.r), tries);
+        }
+        used.push(k.clone());
+        let ks = if self.r.chance(1, 2) && plain_safe(false, &k) && resolves_to_str(&k) { KStyle::Plain } else { self.key_style(&k, false) };
+        (k, ks)
+    }
+
+    /// A block mapping (compact or not) of 2–4 keys; the key at `pos` (0 first, 1 middle, 2 last) —
+    /// and now and then one more — has an indentless block sequence as its value (`k:\n- a\n- b` at
+    /// the key's own column); the sequence's items are scalars or, while `level > 0`, compact
+    /// mappings of the same kind.  The other keys carry scalars.
+    fn indentless_map(&mut self, level: usize, compact: bool, pos: usize) -> PNode {
+        let n = self.r.range(2, 4) as usize;
+        let at = match pos {
+            0 => 0,
+            1 => n / 2,
+            _ => n - 1,
+        };
+        let extra = if self.r.chance(1, 4) { Some(self.r.usize_below(n)) } else { None };
+        let mut used = Vec::new();
+        let mut entries: Vec<(Meta, String, KStyle, PNode)> = Vec::new();
+        for i in 0..n {
+            let mut m = self.meta(false);
+            if compact && i == 0 {
+                m.fill.clear();
+            }
+            let (k, ks) = self.fresh_key(&mut used);
+            let x = if i == at || extra == Some(i) {
+                let ni = self.r.range(1, 3) as usize;
+                let mut items = Vec::new();
+                for _ in 0..ni {
+                    let mut im = self.meta(false);
+                    let x = if level > 0 && self.r.chance(1, 2) {
+                        im.trail = None;
+                        let p = self.r.usize_below(3);
+                        self.indentless_map(level - 1, true, p)
+                    } else {
+                        self.scalar(false, Ctx::Seq)
+                    };
+                    items.push((im, x));
+                }
+                fix_keep_blank_items(&mut items);
+                PNode::Seq { flow: false, step: 0, compact: false, items }
+            } else {
+                self.scalar(false, Ctx::Map)
+            };
+            entries.push((m, k, ks, x));
+        }
+        fix_keep_blank_entries(&mut entries);
+        PNode::Map { flow: false, step: *self.r.pick(&[1usize, 2, 2, 3, 4]), compact, entries }
+    }
+}
+
+/// Indentless block sequences as values of the first / a middle / the last key of compact mappings
+/// (`- ports:\n  - 80\n  name: web`), with following sibling keys, at nesting depths 1–4: the compact
+/// mapping is an item of a sequence that is the root, or the (indented or again indentless) value of
+/// a key of an enclosing mapping, which may itself be a compact item one level further out.
+pub fn indentless_stream(r: &mut Rng) -> PStream {
+    let br = *r.pick(&[Break::Lf, Break::Lf, Break::Crlf, Break::Cr]);
+    let mut g = Gen::new(r, GenOpts { block_scalars: true, comments: true, breaks: true, anchors: false, multidoc: false, max_depth: 2 });
+    let inner = g.r.range(0, 2) as usize;
+    let pos = g.r.usize_below(3);
+    let mut node = g.indentless_map(inner, true, pos);
+    let wraps = g.r.range(0, 3) as usize;
+    for w in 0..=wraps {
+        // `node` is a compact mapping: make it an item of a block sequence …
+        let mut items: Vec<(Meta, PNode)> = Vec::new();
+        if g.r.chance(1, 3) {
+            items.push((g.meta(false), g.scalar(false, Ctx::Seq)));
+        }
+        let mut m = g.meta(false);
+        m.trail = None;
+        items.push((m, node));
+        if g.r.chance(1, 2) {
+            items.push((g.meta(false), g.scalar(false, Ctx::Seq)));
+        }
+        fix_keep_blank_items(&mut items);
+        let last = w == wraps;
+        let step = if !last && g.r.chance(1, 2) { 0 } else { *g.r.pick(&[1usize, 2, 2, 3, 4]) };
+        let seq = PNode::Seq { flow: false, step, compact: false, items };
+        if last && g.r.chance(1, 2) {
+            node = seq;
+            break;
+        }
+        // … that is the value of a key (first / middle / last) of an enclosing mapping
+        let n = g.r.range(1, 3) as usize;
+        let at = g.r.usize_below(n);
+        let mut used = Vec::new();
+        let mut entries: Vec<(Meta, String, KStyle, PNode)> = Vec::new();
+        let compact = !last;
+        let mut seq = Some(seq);
+        for i in 0..n {
+            let mut m = g.meta(false);
+            if compact && i == 0 {
+                m.fill.clear();
+            }
+            let (k, ks) = g.fresh_key(&mut used);
+            let x = if i == at { seq.take().unwrap() } else { g.scalar(false, Ctx::Map) };
+            entries.push((m, k, ks, x));
+        }
+        fix_keep_blank_entries(&mut entries);
+        node = PNode::Map { flow: false, step: 2, compact, entries };
+    }
+    let mut root_meta = Meta::default();
+    if g.r.chance(1, 8) {
+        root_meta.trail = Some(g.comment());
+    }
+    let marker = g.r.chance(1, 4) || root_meta.trail.is_some();
+    PStream { docs: vec![PDoc { fill: vec![], marker, end_marker: false, root: node, root_meta }], br }
+}
+
 /// Does the node contain an alias (or a nested anchor) named `a`?
 pub fn mentions(n: &PNode, a: &str) -> bool {
     match n {
@@ -1738,12 +1912,6 @@ fn feat_node(n: &PNode, parent_compact: bool, flow: bool, out: &mut Vec<&'static
             }
         }
         PNode::Seq { flow: f, compact, items, .. } => {
-            if *compact && !*f {
-                let n = items.len();
-                if items.iter().take(n.saturating_sub(1)).any(|e| multiline(&e.1)) {
-                    out.push("compact-nested");
-                }
-            }
             for (m, x) in items {
                 feat_meta(m, out);
                 if *compact && !*f && is_bs(x) {
@@ -1753,11 +1921,9 @@ fn feat_node(n: &PNode, parent_compact: bool, flow: bool, out: &mut Vec<&'static
             }
         }
         PNode::Map { flow: f, compact, entries, .. } => {
-            if *compact && !*f {
-                let n = entries.len();
-                if entries.iter().take(n.saturating_sub(1)).any(|e| multiline(&e.3)) {
-                    out.push("compact-nested");
-                }
+            // the block scalar under the key on the `- ` line, with further keys after it (V4)
+            if *compact && !*f && entries.len() >= 2 && is_bs(&entries[0].3) {
+                out.push("bs-in-compact-map");
             }
             for (m, k, ks, x) in entries {
                 feat_meta(m, out);
@@ -1784,22 +1950,11 @@ fn feat_node(n: &PNode, parent_compact: bool, flow: bool, out: &mut Vec<&'static
     }
 }
 
-/// Does the node's rendering span several lines?
 /// A quote, `|` or `>` inside a block-context plain scalar right after a character that is not
 /// alphanumeric (space, comma, …): a position where a validator could take it for a node start.
 fn plain_inner_indicator(s: &str) -> bool {
     let cs: Vec<char> = s.chars().collect();
     (1..cs.len()).any(|i| matches!(cs[i], '"' | '\'' | '|' | '>') && !cs[i - 1].is_alphanumeric())
-}
-
-fn multiline(n: &PNode) -> bool {
-    match strip_anchor(n) {
-        PNode::Str(_, SStyle::Literal { .. }) | PNode::Str(_, SStyle::Folded { .. }) => true,
-        PNode::Seq { flow: false, compact: false, .. } | PNode::Map { flow: false, compact: false, .. } => true,
-        PNode::Seq { flow: false, compact: true, items, .. } => items.len() >= 2 || items.iter().any(|e| multiline(&e.1)),
-        PNode::Map { flow: false, compact: true, entries, .. } => entries.len() >= 2 || entries.iter().any(|e| multiline(&e.3)),
-        _ => false,
-    }
 }
 
 fn strip_anchor(n: &PNode) -> &PNode {
@@ -1871,6 +2026,9 @@ pub fn features(ps: &PStream) -> String {
             }
             break;
         }
+    }
+    if returns_between_levels(ps) {
+        out.push("compact-nested");
     }
     if t.contains("]:") || t.contains("}:") {
         out.push("bracket-colon");
